@@ -20,6 +20,7 @@ from .contracts import load_contracts
 
 Z3_TIMEOUT_MS = int(os.environ.get('PYVC_Z3_TIMEOUT_MS', '10000'))
 CLI_TIMEOUT_S = int(os.environ.get('PYVC_CLI_TIMEOUT_S', '20'))
+USE_CLI = os.environ.get('PYVC_USE_CLI', '0') == '1'
 
 
 class Exec(ExprMixin, CallMixin, BuiltinMixin, StmtMixin):
@@ -50,6 +51,33 @@ class Exec(ExprMixin, CallMixin, BuiltinMixin, StmtMixin):
     def prim_height(self, args, path, node):
         g = theory.ghosts(self.ctx)
         return VInt(g.height(self.coerce(args[0], REF('Feature')).t))
+
+    def prim_depth(self, args, path, node):
+        g = theory.ghosts(self.ctx)
+        return VInt(g.depth(self.coerce(args[0], REF('Feature')).t))
+
+    def prim_assumed_lemma(self, args, path, node):
+        """a code-independent specification lemma that SMT cannot do (needs induction over the tree):
+        assumed here, validated exhaustively to a bound by the stand-in (labelled bounded)"""
+        name = py_const(args[0])
+        self.ctx.assumptions.add(f'specification lemma assumed (code independent, validated natively to a bound): {name}')
+        self.ctx.bounded_lemmas.add(name)
+        return VBool(self.truth(args[1], path))
+
+    def prim_holds(self, args, path, node):
+        """truth value of a name under the (arbitrary) assignment: an uninterpreted function, i.e. the goal is
+        proved for every assignment"""
+        f = self.uf('env', [self.ctx.sorts.Data], z3.BoolSort())
+        return VBool(f(self.coerce(args[0], DATA).t))
+
+    def prim_equiv(self, args, path, node):
+        a = self.truth(self.spec_call('sem', [self.coerce(args[0], NODE)], path, node), path)
+        b = self.truth(self.spec_call('sem', [self.coerce(args[1], NODE)], path, node), path)
+        return VBool(a == b)
+
+    def prim_owned(self, args, path, node):
+        N = self.ctx.sorts.Node
+        return VBool(N.owned(self.coerce(args[0], NODE).t))
 
     def prim_owner_rel(self, args, path, node):
         g = theory.ghosts(self.ctx)
@@ -136,6 +164,32 @@ def param_kind(ex, fi, con, pname, ann):
     return ex.ann_kind(ann, fi)
 
 
+def prove_lemma(ctx, ex, con, lname, path):
+    """a @lemma specification function: its body (a boolean expression over its parameters) is an obligation
+    for arbitrary parameters (fold induction available) and is then available universally quantified"""
+    fi = ctx.specs[lname]
+    formals, vals, guards = [], [], []
+    for a in fi.node.args.args:
+        k = ex.ann_kind(a.annotation, fi)
+        v = ctx.fresh_val('L_' + a.arg, k)
+        vals.append(v)
+        formals.append(v.t)
+        if isinstance(v, VRef):
+            guards.append(v.t != ctx.sorts.null(v.cls))
+    lp = Path(tuple(path.pc) + tuple(guards), {})
+    ctx.spec_mode += 1
+    ctx.naming_off += 1        # the parameters are quantified afterwards: no constants defined in terms of them
+    saved = ex.cur_mod
+    try:
+        goal = ex.truth(ex.call_inline_pure(fi, vals, {}, lp), lp)
+    finally:
+        ctx.spec_mode -= 1
+        ctx.naming_off -= 1
+        ex.cur_mod = saved
+    ctx.oblige(lp, f'lemma:{lname}', f'specification lemma {lname}', goal, fi.node.lineno)
+    ctx.axioms.append(z3.ForAll(formals, z3.Implies(z3.And(*guards) if guards else z3.BoolVal(True), goal)))
+
+
 def build(index, contracts, specs, rec, fid):
     """symbolically execute the function under contract; returns (ctx, ex, info)"""
     con = contracts[fid]
@@ -150,10 +204,16 @@ def build(index, contracts, specs, rec, fid):
     ctx.inlined = set()
     ctx.used_contracts = set()
     ctx.wf_on = False
+    ctx.named_defs = []
+    ctx.naming_off = 0
+    ctx.typed_seqs = set()
+    ctx.bounded_lemmas = set()
     ctx.cur_fid = fid
     ctx.cur_contract = con
     ex = Exec(ctx)
     ex.reveal = con.reveal
+    index.module_by_path(S.CORE_AST)
+    index.module_by_path(S.FM)
     fi = index.get_function(con.path, con.qualname)
     if fi is None:
         return ctx, ex, {'status': 'CONTRACT-STALE', 'reason': f'{con.path}:{con.qualname} not found'}
@@ -184,6 +244,8 @@ def build(index, contracts, specs, rec, fid):
         path.assume(pre)
     if con.decreases is not None:
         ex.entry_measure = ex.coerce(ex.eval_clause_val(con, con.decreases, env, path), INT).t
+    for lname in con.lemmas:
+        prove_lemma(ctx, ex, con, lname, path)
     entry_pc = path.pc
     ends = ex.exec_block(fi.node.body, path)
     n_ret = 0
@@ -285,6 +347,12 @@ def fold_apps(ctx, t, acc):
 
 def induction(ctx, hyps, goal, timeout_ms):
     """fold induction: generalise the common length argument of the folds in the goal"""
+    # unfold named sequence constants (S_x == term hypotheses) so that the folds they stand for are visible
+    defs = list(ctx.named_defs)
+    for _ in range(4):
+        if not defs:
+            break
+        goal = z3.substitute(goal, *defs)
     apps = []
     fold_apps(ctx, goal, apps)
     if not apps:
@@ -326,23 +394,63 @@ def induction(ctx, hyps, goal, timeout_ms):
     return ('unknown', 'fold-induction ' + ','.join(tried), 0.0)
 
 
+def fold_equalities(ctx, hyps, goal, timeout_ms):
+    """auxiliary lemmas: pairwise equality of the folds (same length argument, same sort) that occur in the
+    hypotheses and the goal, each proved by fold induction before it is used"""
+    apps = []
+    for t in list(hyps) + [goal]:
+        fold_apps(ctx, t, apps)
+    uniq = {}
+    for a in apps:
+        uniq[a.get_id()] = a
+    apps = list(uniq.values())
+    found = []
+    tried = 0
+    for x in range(len(apps)):
+        for y in range(x + 1, len(apps)):
+            a, b = apps[x], apps[y]
+            if a.decl().eq(b.decl()) or a.sort() != b.sort():
+                continue
+            if not a.arg(a.num_args() - 1).eq(b.arg(b.num_args() - 1)):
+                continue
+            if z3.is_seq(a):
+                continue
+            tried += 1
+            if tried > 12:
+                return found
+            eq = a == b
+            ind = induction(ctx, hyps, eq, min(timeout_ms, 4000))
+            if ind is not None and ind[0] == 'proved':
+                found.append(eq)
+    return found
+
+
 def discharge(ctx, ob, timeout_ms=None):
     timeout_ms = timeout_ms or Z3_TIMEOUT_MS
     res = {'id': ob.id, 'kind': ob.kind, 'desc': ob.desc, 'lineno': ob.lineno}
-    v, be, dt, extra = check_valid(ctx, ob.hyps, ob.goal, timeout_ms, use_cli=(ob.kind.startswith('post') or ob.kind == 'pre'))
-    res.update(verdict=v, backend=be, seconds=round(dt, 3))
+    t0 = time.time()
+    inductive = ob.kind.startswith(('post', 'lemma')) or ob.kind in ('inv_preserve', 'inv_init', 'pre')
+    # 1. e-matching only; 2. fold induction; 3. full z3 (model finding); 4. CLI back ends on the SMT-LIB dump
+    v, be, dt, extra = check_valid(ctx, ob.hyps, ob.goal, timeout_ms, use_cli=False, full=False)
+    if v != 'proved' and inductive:
+        ind = induction(ctx, ob.hyps, ob.goal, timeout_ms)
+        if ind is not None and ind[0] == 'proved':
+            v, be = 'proved', ind[1]
+        elif ind is not None:
+            res['induction'] = ind[1]
+    if v != 'proved' and inductive:
+        eqs = fold_equalities(ctx, ob.hyps, ob.goal, timeout_ms)
+        if eqs:
+            v2, be2, _, _ = check_valid(ctx, list(ob.hyps) + eqs, ob.goal, timeout_ms, use_cli=False, full=False)
+            if v2 == 'proved':
+                v, be = 'proved', be2 + f' with {len(eqs)} fold-equality lemma(s) proved by induction'
+    if v != 'proved':
+        v, be, dt, extra = check_valid(ctx, ob.hyps, ob.goal, timeout_ms, use_cli=USE_CLI and inductive)
+    res.update(verdict=v, backend=be, seconds=round(time.time() - t0, 3))
     if v == 'refuted':
         res['model'] = model_summary(extra)
     elif v == 'unknown':
         res['reason'] = str(extra)
-    if v != 'proved' and (ob.kind.startswith('post') or ob.kind in ('inv_preserve', 'inv_init', 'pre')):
-        ind = induction(ctx, ob.hyps, ob.goal, timeout_ms)
-        if ind is not None and ind[0] == 'proved':
-            res.update(verdict='proved', backend=ind[1], seconds=round(dt + ind[2], 3))
-            res.pop('model', None)
-            res.pop('reason', None)
-        elif ind is not None:
-            res['induction'] = ind[1]
     return res
 
 
@@ -444,6 +552,7 @@ def verify(fid, index=None, loaded=None, timeout_ms=None):
     out['inlined'] = sorted(ctx.inlined)
     out['used_contracts'] = sorted(ctx.used_contracts)
     out['folds'] = len(ctx.folds.defs)
+    out['bounded_lemmas'] = sorted(ctx.bounded_lemmas)
     out['seconds'] = round(time.time() - t0, 2)
     return out
 
